@@ -32,6 +32,9 @@ CHECK_DEADLOCK FALSE
 """
 
 
+GATES = {}
+
+
 def make_target():
     import Pyro5.api as P
 
@@ -45,6 +48,16 @@ def make_target():
                     yield i * 100 + j
                 if raise_at == n + 1:
                     raise ValueError("generator failed at the end")
+            return g()
+
+        @P.expose
+        def slowgen(self, i, n, gate):
+            """produces its second item only when the harness opens the gate (a fetch that stays in flight)"""
+            def g():
+                for j in range(1, n + 1):
+                    if j == 2:
+                        S.CUR.yield_point(lambda: GATES.get(gate, True))
+                    yield i * 100 + j
             return g()
 
         @P.expose
@@ -84,6 +97,7 @@ def run_scripts(scripts, servertype, settings):
             proxies = {}
             conn = {}          # proxy -> connection incarnation (0 = not connected)
             ninc = [0]
+            broken = {}        # proxy -> its connection was cut by the environment and it has not noticed yet
             its = {}           # stream index -> [iterator, proxy number, done]
             nstream = [0]
 
@@ -92,7 +106,7 @@ def run_scripts(scripts, servertype, settings):
 
             def hk():
                 if implicit_hk:
-                    tr.append({"e": "Housekeep", "now": now()})
+                    tr.append({"e": "Housekeep", "now": now(), "failed": drv.crashed is not None})
 
             def connect(p):
                 if p not in proxies:
@@ -104,6 +118,12 @@ def run_scripts(scripts, servertype, settings):
                     hk()
 
             def disconnect(p):
+                if broken.get(p):
+                    broken[p] = False
+                    conn[p] = 0
+                    proxies[p]._pyroRelease()
+                    sc.quiesce()
+                    return
                 if p in proxies and proxies[p]._pyroConnection is not None:
                     proxies[p]._pyroRelease()
                     sc.quiesce()
@@ -113,6 +133,9 @@ def run_scripts(scripts, servertype, settings):
             try:
                 for step in script:
                     a = step["a"]
+                    if a in ("open", "close") and broken.get(step["p"] if a == "open" else its.get(step["i"], (None, 0, True))[1]):
+                        # only a fetch is made to run into the cut connection; before anything else the client gets rid of it
+                        disconnect(step["p"] if a == "open" else its[step["i"]][1])
                     if a == "open":
                         p = step["p"]
                         connect(p)
@@ -132,11 +155,38 @@ def run_scripts(scripts, servertype, settings):
                         its[i] = [it, p, not ok]
                         tr.append({"e": "Open", "i": i, "c": conn[p], "len": src["len"], "raiseAt": src["raiseAt"], "now": now(), "ok": ok})
                         hk()
+                    elif a == "break":
+                        p = step["p"]
+                        if p in proxies and proxies[p]._pyroConnection is not None and not broken.get(p):
+                            proxies[p]._pyroConnection.sock.cut()      # the path is cut: the server notices at once, the client at its next request
+                            sc.quiesce()
+                            tr.append({"e": "Disconnect", "c": conn[p], "now": now()})
+                            broken[p] = True
+                            hk()
                     elif a == "next":
                         it, p, done = its.get(step["i"], (None, 0, True))
                         if done or it is None or proxies[p]._pyroConnection is None:
                             continue            # the client side refuses by itself: nothing reaches the server
                         i = step["i"]
+                        if broken.get(p):
+                            # the request cannot reach the server: the fetch must fail with a communication error, not end the stream
+                            try:
+                                next(it)
+                                out = "item"
+                            except StopIteration:
+                                out = "stop"
+                            except (S.Hang, S.SchedAbort):
+                                raise
+                            except errors.CommunicationError:
+                                out = "commerror"
+                            except Exception:
+                                out = "other"
+                            broken[p] = False
+                            conn[p] = 0
+                            if proxies[p]._pyroConnection is not None:
+                                proxies[p]._pyroRelease()
+                            tr.append({"e": "BrokenNext", "i": i, "out": out, "now": now()})
+                            continue
                         try:
                             v = next(it)
                             out, item = "item", (v - i * 100 if isinstance(v, int) and v // 100 == i else 999)
@@ -179,8 +229,13 @@ def run_scripts(scripts, servertype, settings):
                         disconnect(step["p"])
                         connect(step["p"])
                     elif a == "housekeep":
-                        d._housekeeping()
-                        tr.append({"e": "Housekeep", "now": now()})
+                        try:
+                            d._housekeeping()
+                            tr.append({"e": "Housekeep", "now": now(), "failed": False})
+                        except (S.Hang, S.SchedAbort):
+                            raise
+                        except Exception as x:
+                            tr.append({"e": "Housekeep", "now": now(), "failed": True, "exc": type(x).__name__})
                     elif a == "tick":
                         sc.sleep(float(step["dt"]))
                 sc.quiesce()
@@ -206,6 +261,110 @@ def run_scripts(scripts, servertype, settings):
     memnet.run(main, max_steps=50000000)
     if len(traces) < len(scripts):
         raise util.MachineryError("session ended early (%d of %d)" % (len(traces), len(scripts)))
+    return traces
+
+
+def run_overlap(variants, settings):
+    """a fetch is in flight on one connection (thread server) while the stream is closed over another connection, or expires,
+    or the daemon does its housekeeping; afterwards the stream must be gone for everybody.  Same trace format as run_scripts;
+    the Close / Housekeep event is placed before or after the overlapped fetch according to what that fetch returned (either
+    order is a legal linearisation)."""
+    import Pyro5.api as P
+    from Pyro5 import config, errors
+    lifetime, linger, streaming = settings
+    config.SERVERTYPE = "thread"
+    config.THREADPOOL_SIZE = 8
+    config.THREADPOOL_SIZE_MIN = 1
+    config.COMMTIMEOUT = 0.0
+    config.ITER_STREAMING = True
+    config.ITER_STREAM_LIFETIME = float(lifetime)
+    config.ITER_STREAM_LINGER = float(linger)
+    traces = []
+
+    def main():
+        sc = S.CUR
+        sc.now = 1000.0
+        d = P.Daemon(host="127.0.0.1")
+        uri = d.register(make_target()(), "src")
+        drv = memnet.ServerDriver(d)
+        for vi, how in enumerate(variants):
+            sc.set_budget(30000)
+            d.streaming_responses.clear()
+            gate = "g%d" % vi
+            GATES[gate] = False
+            tr = [{"e": "cfg", "lifetime": lifetime, "linger": linger, "streaming": True, "server": "thread"}]
+
+            def now():
+                return int(sc.now)
+
+            def fetch(it, i, c):
+                try:
+                    v = next(it)
+                    return {"e": "Next", "i": i, "c": c, "out": "item", "item": v - i * 100, "now": now()}
+                except StopIteration:
+                    return {"e": "Next", "i": i, "c": c, "out": "stop", "item": 0, "now": now()}
+                except (S.Hang, S.SchedAbort):
+                    raise
+                except errors.CommunicationError:
+                    return {"e": "Next", "i": i, "c": c, "out": "other", "item": 0, "now": now()}
+                except errors.PyroError:
+                    return {"e": "Next", "i": i, "c": c, "out": "gone", "item": 0, "now": now()}
+                except Exception:
+                    return {"e": "Next", "i": i, "c": c, "out": "other", "item": 0, "now": now()}
+            p1 = p2 = None
+            try:
+                p1 = P.Proxy(uri)
+                p2 = P.Proxy("PYRO:Pyro.Daemon@" + d.locationStr)
+                p2._pyroBind()
+                it = p1.slowgen(1, 3, gate)
+                tr.append({"e": "Open", "i": 1, "c": 1, "len": 3, "raiseAt": 0, "now": now(), "ok": hasattr(it, "streamId")})
+                tr.append(fetch(it, 1, 1))
+                box = {}
+
+                def overlapped():
+                    p1._pyroClaimOwnership()
+                    box["ev"] = fetch(it, 1, 1)
+                sc.spawn(sc.fresh_name("fetcher"), overlapped)
+                sc.quiesce()                      # the fetch is in flight now, parked inside the generator
+                if how == "close_other_conn":
+                    p2.close_stream(it.streamId)
+                    mid = {"e": "Close", "i": 1}
+                elif how == "expire":
+                    sc.sleep(float(lifetime) + 1.0)
+                    d._housekeeping()
+                    mid = {"e": "Housekeep", "now": now(), "failed": False}
+                else:
+                    d._housekeeping()
+                    mid = {"e": "Housekeep", "now": now(), "failed": False}
+                GATES[gate] = True
+                sc.yield_point(lambda: "ev" in box)
+                sc.quiesce()
+                p1._pyroClaimOwnership()
+                # a fetch that still delivered its item happened before the close / expiry; one that failed, after it
+                tr += [box["ev"], mid] if box["ev"]["out"] == "item" else [mid, box["ev"]]
+                tr.append(fetch(it, 1, 1))
+                tr.append(fetch(it, 1, 1))
+                it.proxy = None
+                sc.quiesce()
+                tr.append({"e": "End", "size": len(d.streaming_responses)})
+            except S.Hang:
+                tr.append({"e": "Next", "i": 1, "c": 0, "out": "hang", "item": 0, "now": 0})
+            for p in (p1, p2):
+                try:
+                    if p is not None:
+                        p._pyroRelease()
+                except Exception:
+                    pass
+            try:
+                sc.quiesce()
+            except S.Hang:
+                pass
+            traces.append(tr)
+        drv.shutdown()
+        d.close()
+    res, sched = memnet.run(main, max_steps=5000000)
+    if len(traces) < len(variants):
+        raise util.MachineryError("overlap session ended early (%d of %d) %r" % (len(traces), len(variants), sched.errors[:2]))
     return traces
 
 
@@ -236,6 +395,12 @@ def run(ctx):
                 js = js[:40]
             traces += run_scripts(js, st, sett)
             metas += [{"script": s, "settings": sett, "server": st} for s in js]
+    # a fetch in flight while the stream is closed over another connection / expires / housekeeping runs (thread server)
+    for sett, variants in (((0, 0, True), ["close_other_conn", "housekeep"]), ((0, 4, True), ["close_other_conn", "housekeep"]),
+                           ((8, 4, True), ["close_other_conn", "expire", "housekeep"]), ((8, 0, True), ["expire", "close_other_conn"])):
+        otr = run_overlap(variants, sett)
+        traces += otr
+        metas += [{"script": [{"a": "overlap:" + v}], "settings": sett, "server": "thread", "overlap": v} for v in variants]
     for m in metas:
         acts = [s["a"] for s in m["script"]]
         nontriv = "open" in acts and any(a in ("disconnect", "reconnect", "close", "housekeep") for a in acts[acts.index("open"):])
@@ -262,7 +427,7 @@ def replay(ctx, path):
     bad = 0
     for case in rep["cases"]:
         m = case["scenario"]
-        tr = run_scripts([m["script"]], m["server"], tuple(m["settings"]))[0]
+        tr = run_overlap([m["overlap"]], tuple(m["settings"]))[0] if m.get("overlap") else run_scripts([m["script"]], m["server"], tuple(m["settings"]))[0]
         v, _ = tlc.validate(ctx, "Trace_Streams", [tr], cfg="Trace_Streams.cfg")
         print("replay:", m["settings"], m["server"], "->", v[0] or "accepted")
         for e in tr:
